@@ -42,13 +42,15 @@ def _classes():
 class AbsSet(SOpaque):
     """a value set known only as a z3 set term (enum `values`): supports .items(), set(), <=, ==, `in`"""
 
-    def __init__(self, term, name):
+    def __init__(self, term, name, is_table=False):
         super().__init__(name)
         self.term = term
+        self.is_table = is_table          # a {member name: value} dict (EnumProperty) rather than a set of values (LiteralEnum)
 
     def getattr(self, I, attr):
         if attr == "items":
-            return SFunc("model", lambda I2, a, k: self)
+            # the (name, value) pairs: the table itself, in full
+            return SFunc("model", lambda I2, a, k: AbsSet(self.term, self.name + ".items()", is_table=False))
         if attr in ("keys", "values"):
             # a coarser view of the member table (its names / its values only): inclusion and equality of tables imply the same
             # relation between their views, never the converse
@@ -56,7 +58,8 @@ class AbsSet(SOpaque):
         raise Unsupported(f"attribute {attr} of an abstract value set")
 
     def as_absset(self):
-        return self
+        # set(<dict>) / iteration over a dict is the set of its KEYS: a coarser view of the member table
+        return _AbsView(self, "keys") if self.is_table else self
 
     def __opaque_cmp__(self, I, op, other):
         import ast
@@ -144,7 +147,7 @@ class SymProps:
             f["value"] = SObj(Value, {"python_code": SStr(z3.Const(f"{hint}_constcode_{k}", z3.StringSort())),
                                       "raw_value": SV(z3.Const(f"{hint}_constraw_{k}", Z.JV))})
         if kind in ("EnumProperty", "LiteralEnumProperty"):
-            f["values"] = AbsSet(z3.Const(f"{hint}_values_{k}", setsort), f"{hint}.values")
+            f["values"] = AbsSet(z3.Const(f"{hint}_values_{k}", setsort), f"{hint}.values", is_table=(kind == "EnumProperty"))
             f["class_info"] = SOpaque(f"{hint}.class_info")
             f["value_type"] = str if I.branch_free() else int
         if kind == "ListProperty":
